@@ -86,10 +86,11 @@ class SourceToSourceImportBlockTransformation(SourceToSourceTransformationBase):
         params = ImportFormatParams(params)
         result = self.importset.pretty_print(params)
         if (not result and self.input.startpos.colno != 1
-            and self.input.text.joined.endswith("\n")):
+            and "\n" in self.input.text.joined):
             # Every import was removed from a block that shares its first
-            # line with a preceding statement.  Keep the line break so that
-            # the next line is not glued onto that statement.
+            # line with a preceding statement and extends past that line.
+            # Keep a line break so that what follows the block is not glued
+            # onto that statement.
             result = "\n"
         return result
 
